@@ -210,6 +210,18 @@ class Repeat(Flow):
         return faults.c10_run(self, w, snap, ev, dev, ctx)
 
 
+class Child(Flow):
+    """FLOW with events on child pull requests and integration commits,
+    plus the redirect differential of C19."""
+    def plan_deviations(self, w, snap, ev, res):
+        from . import faults
+        return faults.c19_plan(self, w, snap, ev, res)
+
+    def run_deviation(self, w, snap, ev, dev, ctx):
+        from . import faults
+        return faults.c19_run(self, w, snap, ev, dev, ctx)
+
+
 class Script(Driver):
     """A fixed history (spec['script']) followed event by event; deviations
     of kind spec['faults'] on the job transitions listed in
@@ -239,4 +251,4 @@ class Script(Driver):
 
 
 REGISTRY = {'flow': Flow, 'flow_faults': FlowFaults, 'repeat': Repeat,
-            'script': Script}
+            'script': Script, 'child': Child}
